@@ -24,7 +24,7 @@ META = dict(
     bounds=dict(
         quick="Bezier degree 0..3, t=1..3 (symbolic ends, points, weights); splines: every pattern of degree 0..3 with 1-2 interior knots "
               "(sampled), t=1..2, via degree_increase and via the degree setter; polynomial and rational (concrete weights); reduction: "
-              "elevate-then-reduce (all control points symbolic), arbitrary curves (two symbolic control points), tolerance=None",
+              "elevate-then-reduce (all control points symbolic), arbitrary curves (two symbolic control points), default tolerance, tolerance 0, tolerance=None",
         thorough="all patterns of degree 0..3 with <=2 interior knots and 3 knots for degree<=1, t up to 3, two value assignments",
     ),
     assumptions=["exact arithmetic", "splines: Fraction knots; rational: concrete positive weights (Bezier: symbolic weights, find_roots stubbed)",
@@ -64,6 +64,8 @@ def configs(tier, seed):
             if p >= 1:
                 cfgs.append(dict(name=f"reduce-none {tag}", kind="none", **base))
                 cfgs.append(dict(name=f"reduce-band {tag}", kind="band", **base))
+                if (i + seed) % 2 == 0:
+                    cfgs.append(dict(name=f"reduce-band {tag} tolerance=0", kind="band", tol0=True, **base))
             if p >= 2:
                 # vector-valued points: x(u) = u is exactly reducible, y is arbitrary -- the worst coordinate decides
                 cfgs.append(dict(name=f"reduce-band2d {tag}", kind="band2d", **base))
@@ -190,12 +192,15 @@ def body(env, cfg):
     c = Curve(list(kv.U), P)
     snap = kmode.snapshot(c)
     try:
-        c.degree_decrease(1)
+        if cfg.get("tol0"):
+            c.degree_decrease(1, 0)  # only an exact reduction may be accepted
+        else:
+            c.degree_decrease(1)
     except ValueError:
         kmode.unchanged(env, c, snap, "refused degree_decrease")
         return
     env.holds("reduced knot vector", list(c.knotvector) == list(kv1.U) and c.degree == p - 1)
     L = vals[-1] - vals[0]
-    bound = 2 * F(1e-9) * max(1, L)
+    bound = 2 * (F(0) if cfg.get("tol0") else F(1e-9)) * max(1, L)
     for k, e in enumerate(kmode.l2_sq(kv, P, kv1, list(c.ctrlpoints))):
         env.holds(f"accepted reduction: integral of squared deviation <= 2*tol*max(1,L) (coord {k})", e <= bound)
